@@ -1,7 +1,7 @@
 #!/usr/bin/env python3
 """Add floors for (property, rule) pairs that have none yet.
 Runs every property check on /repo, reads the per-rule obligation counts from the checker's summary and records
-floor = count (if <= 4) or 80% of it. Existing floors are never changed (they were confirmed when they were added).
+floor = ceil(count/2) if count <= 4 (0 for a rule that legitimately has no instance for the property), else 60% of it. Existing floors are never changed (they were confirmed when they were added).
 usage: tools/floors.py [--show]"""
 import json, os, re, subprocess, sys
 VERIF = os.path.dirname(os.path.dirname(os.path.abspath(__file__)))
@@ -18,7 +18,7 @@ for i in range(1, 18):
         n = sum(int(x.split(":")[1]) for x in body.split())
         k = p + ":" + rule
         if k not in fl:
-            added[k] = max(1, (n + 1) // 2) if n <= 4 else int(n * 0.6)
+            added[k] = (0 if n == 0 else max(1, (n + 1) // 2)) if n <= 4 else int(n * 0.6)
 if "--show" in sys.argv:
     print(json.dumps(added, indent=1)); sys.exit(0)
 fl.update(added)
